@@ -35,28 +35,32 @@ ASSUMPTIONS = [
     "theorems are about the repaired code (fixes/F14.diff, F14b.diff, F14c.diff applied in /repo's working tree); the pinned variants are refuted by the pinned_* theorems",
 ]
 UNPROVED = [
-    "open_takes_exactly and close_moves_only_between (bank accounts touched by Open/Close/liquidation/interest are only trader, clp module, "
-    "the two fund addresses): stated as decidable predicates and judged on the implementation after every Open (c13.opentakes) and by the "
-    "exact bank correspondence after every operation, but not yet proved as theorems",
-    "forced_only_unhealthy as a theorem about the hook (a position removed in BeginBlocker had health <= safety factor when the hook "
-    "valued it): judged on the implementation for every liquidation (c13.forced); the message-path half (only owner or administrator "
-    "removes a position) is proved (only_owner_or_admin_closes)",
+    "forced_only_unhealthy is proved for the processing of one position on the world the hook has when that position's turn comes "
+    "(processMtp on a synced world at an epoch boundary); the lift to `beginBlocker` as a whole (naming, for a position missing after "
+    "the hook, the intermediate world in which it was valued) is not stated as a theorem — on the implementation it is judged for "
+    "every liquidation (c13.forced, health as the hook computed it)",
+    "bank-account locality (only clp module, trader, the two fund addresses) is proved for Open, Close, AdminClose/ForceClose; for the "
+    "BeginBlocker it is only covered by the exact bank correspondence after every hook",
     "the health the hook tests is the one computed before that block's interest payment (stale by one payment); the property is stated and "
     "checked with that value, as the code defines it",
     "no theorem relates MarginOK to x/clp's own messages beyond the environment step of `run` (swaps and liquidity changes are modelled as "
     "arbitrary changes of the two balance fields; that they do not touch custody/liabilities is checked on the implementation after every clp operation)",
+    "conservation of value in amounts (what the trader gets back equals swap result minus liabilities minus fund cut) is part of the exact "
+    "correspondence, not of a theorem",
 ]
 MANIFEST = {
     "text": "Lean 4 theorems over a model of x/margin that sequences every SetPool/SetMTP/bank write: MarginOK (pool custody and "
             "liabilities per side = sums over positions, open counter = number of positions) is preserved by Open/Close/AdminClose/"
             "ForceClose on every exit, by the non-atomic BeginBlocker on every exit of every position's processing and for every interest "
             "rate, and along every history; closed positions disappear; only owner or administrator closes by message; Open implies "
-            "health > safety factor. Tied to the Go code by exact differential execution of real keepers on generated histories and by "
+            "health > safety factor and takes exactly the collateral; Close/AdminClose touch only trader, clp module and fund accounts; "
+            "a position removed while the hook processes it was at or below the safety factor. Tied to the Go code by exact differential execution of real keepers on generated histories and by "
             "judging the same predicates on the implementation's dumped state after every operation.",
     "note": "Theorems are about the repaired tree (three defects of the pinned tree — F14 failed fund transfer persists a half-updated "
             "position, F14b liquidation failing after TakeOutCustody, F14c positions between two non-native assets — are reproduced by the "
             "check when a patch is reverted and refuted in Lean by kernel-checked witnesses). Not proved, only tested on the "
-            "implementation: bank-account locality of Open/Close, and the hook half of liquidation-only-when-unhealthy. Trusted: Lean "
+            "implementation: bank-account locality of the hook, the lift of liquidation-only-when-unhealthy from one position's "
+            "processing to the whole BeginBlocker, amounts paid out. Trusted: Lean "
             "kernel, hand-written model (tied by correspondence only), harness/driver, x/bank and store branching as modelled, interest "
             "rate as an environment value.",
     "technique": "Lean 4 proof + differential correspondence (model vs real Go)",
